@@ -11,6 +11,7 @@ import numpy as np
 import pandas as pd
 import z3
 
+from symx import core
 from symx.core import Sym, SymBool, cur, sym_max, sym_min
 from symx.logic import b2i, between, iff, implies, ite, land, lnot, lor
 from symx.run import Job
@@ -50,11 +51,20 @@ class _Uniq:
 
 
 def _np_shim():
+    def _only_plain(what, a, args, kw):
+        # the look-alikes model the forms the library uses; anything else is reported as inconclusive, never guessed
+        arr = np.asarray(a, dtype=object)
+        ok = not args and (not kw or (set(kw) == {"axis"} and (kw["axis"] is None or (kw["axis"] == 0 and arr.ndim == 1))))
+        if not ok:
+            raise core.Inconclusive(f"{what} look-alike: unsupported arguments {args!r} {kw!r}")
+
     def amin(a, *args, **kw):
+        _only_plain("np.min", a, args, kw)
         a = np.asarray(a, dtype=object).reshape(-1)
         return sym_min(*list(a)) if len(a) > 1 else a[0]
 
     def ptp(a, axis=None, **kw):
+        _only_plain("np.ptp", a, (), kw)
         a = np.asarray(a, dtype=object)
         if axis is not None and a.ndim == 2:
             lanes = a if axis == 1 else a.T
@@ -68,6 +78,8 @@ def _np_shim():
         return sym_max(*list(a)) - sym_min(*list(a))
 
     def unique(a, *args, **kw):
+        if args or kw:
+            raise core.Inconclusive(f"np.unique look-alike: unsupported arguments {args!r} {kw!r}")
         flat = list(np.asarray(a, dtype=object).reshape(-1))
         size = 0
         for i, x in enumerate(flat):
@@ -241,6 +253,18 @@ def body_kl_and_plotly(ctx, n, ub, m):
         ctx.prove(len(calls) == 1 and dist == calls[0][2], "kl-distance-is-one-entropy-call")
         ctx.prove(np.allclose(np.array(calls[0][0], dtype=float), want1) and np.allclose(np.array(calls[0][1], dtype=float), want2),
                   "kl-distance-arguments-are-the-corrected-leaf-distributions")
+        # the divergence always describes the *current* counts: compare, fill the first id again, compare again
+        del calls[:]
+        part.kl_distance("test", "build")
+        part.fill(q, "test")
+        del calls[:]
+        part.kl_distance("test", "build")
+        c2b = part.leaf_counts("test")
+        want2b = [(c + 0.5) / (sum(c2b) + k / 2) for c in c2b]
+        ctx.prove(len(calls) == 1 and np.allclose(np.array(calls[0][0], dtype=float), want2b)
+                  and np.allclose(np.array(calls[0][1], dtype=float), want1),
+                  "kl-distance-uses-the-current-counts-of-both-ids")
+        part.fill(q, "test", reset=True)  # back to the single fill for the frame below
         del calls[:]
         df = part.to_plotly_dataframe("build", "test")
         nodes = list(_walk(part.node))
